@@ -4,6 +4,7 @@ import (
 	"errors"
 	"fmt"
 	"net"
+	"net/netip"
 )
 
 var ErrInvalidAddr = errors.New("invalid IP subnet/host")
@@ -11,14 +12,19 @@ var ErrInvalidAddr = errors.New("invalid IP subnet/host")
 func ParseIPNet(subnet string) (*net.IPNet, error) {
 	_, result, err := net.ParseCIDR(subnet)
 	if err == nil {
-		return result, err
+		// only IPv4 is supported: an IPv6 prefix (the IPv4-mapped form included) has a 16-byte mask
+		if len(result.Mask) != net.IPv4len {
+			return nil, ErrInvalidAddr
+		}
+		return result, nil
 	}
 	// try to parse host IP address instead
-	ipAddr := net.ParseIP(subnet)
-	if ipAddr == nil {
+	ipAddr, err := netip.ParseAddr(subnet)
+	// Is4 is false for every IPv6 notation, IPv4-mapped IPv6 addresses included
+	if err != nil || !ipAddr.Is4() {
 		return nil, ErrInvalidAddr
 	}
-	return &net.IPNet{IP: ipAddr.To4(), Mask: net.CIDRMask(32, 32)}, nil
+	return &net.IPNet{IP: ipAddr.AsSlice(), Mask: net.CIDRMask(32, 32)}, nil
 }
 
 func GetInterfaceIP(iface *net.Interface) (ifaceIP net.IP, err error) {
